@@ -547,9 +547,15 @@ pub fn check(opts: &CheckOpts) -> i32 {
         }
     }
     // hangs / crashes: the driver regenerates the case (generation is a pure function of seed and run index)
+    // (every worker that meets a hang is killed with it, so there can be one per worker: the first two are minimised,
+    // 20 s to 3 min each; the others are reported as generated)
+    let mut minimised_resource = 0usize;
     for (run, class, detail) in resource_violations {
         let case = props::gen_case(prop, opts.seed, run, &opts.tier);
-        let case = if known.matches(prop, &class).is_none() {
+        let mut was_minimised = false;
+        let case = if known.matches(prop, &class).is_none() && minimised_resource < 2 {
+            minimised_resource += 1;
+            was_minimised = true;
             minimise_external(prop, opts.seed, run, &case, &class, opts.mem_cap)
         } else {
             case
@@ -565,7 +571,7 @@ pub fn check(opts: &CheckOpts) -> i32 {
             run,
             class: class.clone(),
             detail: detail.clone(),
-            minimised: true,
+            minimised: was_minimised,
             schedule_controlled: true,
             case,
         });
